@@ -304,13 +304,20 @@ func appendAlias(p *parser, t *token) {
 	t.Append(tok)
 }
 
+// importPath reads the path of an aliased import and rejects, as a parse error, a string that does not unquote.
+func importPath(p *parser) *token {
+	tok := p.Advance("(string)")
+	tok.Unquote()
+	return tok
+}
+
 func importNud(p *parser, t *token) *token {
 	if p.Token.Symbol == "(" {
 		p.Advance("(")
 		for p.Token.Symbol != ")" {
 			if p.Token.Symbol == "(name)" {
 				t.Append(p.Advance("(name)"))
-				t.Append(p.Advance("(string)"))
+				t.Append(importPath(p))
 			} else {
 				appendAlias(p, t)
 			}
@@ -320,7 +327,7 @@ func importNud(p *parser, t *token) *token {
 	}
 	if p.Token.Symbol == "(name)" {
 		t.Append(p.Advance("(name)"))
-		t.Append(p.Advance("(string)"))
+		t.Append(importPath(p))
 		return t
 	}
 	appendAlias(p, t)
